@@ -578,3 +578,20 @@ M('c07-asgi-iter-clears-buffer-after-yielding-the-local', 'C07', 'R4', 'falcon/a
   "            next_chunk = self._buffer\n\n            self._pos += len(next_chunk)\n            yield next_chunk\n            self._buffer = b''\n")
 M('c07-asgi-iter-yields-copy-of-buffer-and-clears-it-after-the-yield', 'C07', 'R4', 'falcon/asgi/stream.py', _BUFFERED,
   "            self._pos += len(self._buffer)\n            yield self._buffer[:]\n            self._buffer = b''\n")
+
+# ------------------------------------------------------------------ preserving wave 3: refactoring + break
+# k3-c07-4 (bound methods hoisted out of the loops: `read = self.read`, `readline = self.readline`, `append = lines.append`)
+# together with a real mistake: the hoisted local is read like the method it is
+M('c07-wsgi-exhaust-hoisted-read-stops-on-short-read', 'C07', 'R3', W, _EXHAUST_LOOP,
+  "        read = self.read\n        while True:\n            chunk = read(chunk_size)\n            if len(chunk) < chunk_size:\n                break\n")
+M('c07-wsgi-exhaust-hoisted-read-countdown-ignores-result', 'C07', 'R3', W, _EXHAUST_LOOP,
+  "        read = self.read\n        pending = self._bytes_remaining\n        while pending > 0:\n            read(chunk_size)\n            pending -= chunk_size\n")
+M('c07-wsgi-readlines-hoisted-append-drops-overshooting-line', 'C07', 'R3', W,
+  "        lines: List[bytes] = []\n        total = 0\n        while total < hint:\n            line = self.readline()\n            if not line:\n                break\n\n"
+  "            lines.append(line)\n            total += len(line)\n",
+  "        readline = self.readline\n        lines: List[bytes] = []\n        append = lines.append\n        total = 0\n        while total < hint:\n"
+  "            line = readline()\n            if not line:\n                break\n\n"
+  "            if total + len(line) > hint and lines:\n                break\n            append(line)\n            total += len(line)\n")
+# the raw read hoisted into a local and called directly, bypassing the clamp
+M('c07-wsgi-read-hoisted-raw-read-called-directly', 'C07', None, W, _READ_BODY,
+  "        raw_read = self.stream.read\n        return raw_read(size)\n")
